@@ -743,6 +743,7 @@ structure FrbState where
   tell : Bool
   regs : Regs
   funcs : List FuncDef
+  declared : Nat := 0      -- bytes of bytecode and name tables declared by the function records read so far
 
 def localNames (ctx : Ctx) (d : Bytes) (off : Int) : Nat → Nat → R (List Node)
   | 0, _ => .ok []
@@ -788,9 +789,10 @@ structure FrbRec where
   params : List Node
   isMethod : Bool
   globals : List Node      -- the handler's own table of global names (count C entries)
+  declared : Nat           -- bytes of bytecode and name tables declared by the records up to and including this one
 
 /-- the straight-line part of one `parse_frb` iteration -/
-def readFrb (ctx0 : Ctx) (d : Bytes) (idx : Int) : R FrbRec := do
+def readFrb (ctx0 : Ctx) (d : Bytes) (idx : Int) (declared0 : Nat) : R FrbRec := do
   let nameIdx ← getSI 2 d idx
   let _ ← getSI 2 d (idx + 2)
   let bcLen ← getSI 4 d (idx + 4)
@@ -805,11 +807,14 @@ def readFrb (ctx0 : Ctx) (d : Bytes) (idx : Int) : R FrbRec := do
   let _ ← getSI 2 d (idx + 34)
   let _ ← getSI 2 d (idx + 36)
   let _ ← getSI 4 d (idx + 38)
+  -- the regions of different handlers do not overlap: together they fit in the file (F103)
+  let declared := declared0 + (bcLen.toNat + 2 * (nLocal.toNat + nArg.toNat + countC.toNat))
+  if declared > d.length then throw .value else
   let fname := nameOr ctx0.names nameIdx
   let locals ← localNames ctx0 d localOff nLocal.toNat 0
   let (params, isMethod) ← paramNames ctx0 d argOff nArg.toNat 0
   let globals ← handlerGlobals ctx0 d globOff countC.toNat 0 []
-  pure { fname, bcLen, bcOff, locals, params, isMethod, globals }
+  pure { fname, bcLen, bcOff, locals, params, isMethod, globals, declared }
 
 /-- `parse_opcodes` for one handler: the opcode loop, then condition_detect and loop_detect -/
 def parseOpcodes (ctx : Ctx) (d : Bytes) (r : FrbRec) (regs : Regs) (bpc : Nat) (tell : Bool) : R (Regs × PState) := do
@@ -820,12 +825,12 @@ def parseOpcodes (ctx : Ctx) (d : Bytes) (r : FrbRec) (regs : Regs) (bpc : Nat) 
 
 /-- one function record block + its bytecode + condition_detect + loop_detect -/
 def parseFunc (ctx0 : Ctx) (d : Bytes) (idx : Int) (fs : FrbState) : R FrbState := do
-  let r ← readFrb ctx0 d idx
+  let r ← readFrb ctx0 d idx fs.declared
   let ctx := { ctx0 with params := r.params, localVars := r.locals }
   let (regs, st) ← parseOpcodes ctx d r fs.regs fs.bpc fs.tell
   let f : FuncDef := { name := r.fname, pos := idx + 42, params := r.params, localVars := r.locals, globalVars := st.gvars,
                        stmts := st.stmts, isMethod := r.isMethod }
-  pure { bpc := st.bpc, tell := st.tell, regs := regs, funcs := fs.funcs ++ [f] }
+  pure { bpc := st.bpc, tell := st.tell, regs := regs, funcs := fs.funcs ++ [f], declared := r.declared }
 
 def parseFuncs (ctx : Ctx) (d : Bytes) : Nat → Int → FrbState → R FrbState
   | 0, _, fs => .ok fs
